@@ -1,37 +1,440 @@
 /-
 Helper lemmas for C06.
+
+The first four theorems are mutual structural inductions over `Cfg` / `List (String × Cfg)` mirroring
+`applyAcl` / `applyAclList`, generalised over `rules` and `path`.  `lenient_cons_inv` is the common
+inversion of one step of the lenient non-exclusive filter.
 -/
 import AnnetModel.Spec.Acl
 
 namespace Annet.Acl.Lemmas
-open Annet Annet.Acl Annet.Acl.Spec
+open Annet Annet.Acl Annet.Acl.Spec Annet.Pattern
+
+theorem applyAcl_ok_iff (v : Vendor) (fatal excl : Bool) (rules : Rules) (path : List String)
+    (ks : List (String × Cfg)) (t' : Cfg) :
+    applyAcl v fatal excl rules path (.mk ks) = .ok t' ↔
+      ∃ ks', applyAclList v fatal excl rules path ks = .ok ks' ∧ t' = .mk ks' := by
+  rw [applyAcl]
+  cases applyAclList v fatal excl rules path ks with
+  | error e => simp [Except.map]
+  | ok ks' => simp [Except.map, eq_comm]
+
+theorem applyAcl_mk_of_list {v : Vendor} {fatal excl : Bool} {rules : Rules} {path : List String}
+    {ks ks' : List (String × Cfg)} (h : applyAclList v fatal excl rules path ks = .ok ks') :
+    applyAcl v fatal excl rules path (.mk ks) = .ok (.mk ks') := by
+  rw [applyAcl, h]; rfl
+
+/-! ### sub-tree -/
+
+mutual
+  theorem sub_cfg (v : Vendor) (fatal excl : Bool) (rules : Rules) (path : List String) :
+      (t t' : Cfg) → applyAcl v fatal excl rules path t = .ok t' → Sub t' t
+    | .mk ks, t', h => by
+      obtain ⟨ks', hl, rfl⟩ := (applyAcl_ok_iff ..).1 h
+      exact Spec.Sub.mk (sub_list v fatal excl rules path ks ks' hl)
+  theorem sub_list (v : Vendor) (fatal excl : Bool) (rules : Rules) (path : List String) :
+      (ks ks' : List (String × Cfg)) → applyAclList v fatal excl rules path ks = .ok ks' → SubL ks' ks
+    | [], ks', h => by
+      simp only [applyAclList, Except.ok.injEq] at h
+      subst h; exact SubL.nil _
+    | (row, ch) :: rest, ks', h => by
+      rw [applyAclList] at h
+      split at h
+      · cases h
+      · cases h
+      · split at h
+        · cases h
+        · exact SubL.skip _ (sub_list v fatal excl rules path rest ks' h)
+      · split at h
+        · exact SubL.skip _ (sub_list v fatal excl rules path rest ks' h)
+        · split at h
+          · cases h
+          · rename_i ch' hch
+            split at h
+            · cases h
+            · rename_i rest' hrest
+              cases h
+              exact SubL.keep row (sub_cfg v fatal excl _ _ ch ch' hch)
+                (sub_list v fatal excl rules path rest rest' hrest)
+end
 
 theorem subtree_ordered (v : Vendor) (fatal excl : Bool) (rules : Rules) (path : List String) (t t' : Cfg)
-    (h : applyAcl v fatal excl rules path t = .ok t') : Sub t' t := by
-  sorry
+    (h : applyAcl v fatal excl rules path t = .ok t') : Sub t' t := sub_cfg v fatal excl rules path t t' h
+
+/-! ### lenient mode: idempotence, path predicate, strict mode -/
+
+/-- inversion of one lenient, non-exclusive step -/
+theorem lenient_cons_inv {v : Vendor} {rules : Rules} {path : List String} {row : String} {ch : Cfg}
+    {rest ks' : List (String × Cfg)}
+    (h : applyAclList v false false rules path ((row, ch) :: rest) = .ok ks') :
+    (passRow v rules row = none ∧ (matchRowToAcl v row rules false = .ok none ∨
+        ∃ m cr, matchRowToAcl v row rules false = .ok (some (m, cr)) ∧
+          (m.isReverse && m.rule.cantDelete.all id) = true) ∧
+      applyAclList v false false rules path rest = .ok ks') ∨
+    (∃ m cr ch' rest', matchRowToAcl v row rules false = .ok (some (m, cr)) ∧
+      (m.isReverse && m.rule.cantDelete.all id) = false ∧ passRow v rules row = some cr ∧
+      applyAcl v false false cr (path ++ [row]) ch = .ok ch' ∧
+      applyAclList v false false rules path rest = .ok rest' ∧ ks' = (row, ch') :: rest') := by
+  rw [applyAclList] at h
+  split at h
+  · cases h
+  · cases h
+  · rename_i hm
+    simp only [Bool.false_eq_true, if_false] at h
+    exact .inl ⟨by simp [passRow, hm], .inl hm, h⟩
+  · rename_i m cr hm
+    split at h
+    · rename_i hc
+      exact .inl ⟨by simp [passRow, hm, hc], .inr ⟨m, cr, hm, hc⟩, h⟩
+    · rename_i hc
+      split at h
+      · cases h
+      · rename_i ch' hch
+        split at h
+        · cases h
+        · rename_i rest' hrest
+          cases h
+          have hc' : (m.isReverse && m.rule.cantDelete.all id) = false := by simpa using hc
+          exact .inr ⟨m, cr, ch', rest', hm, hc', by simp [passRow, hm, hc'], hch, hrest, rfl⟩
+
+mutual
+  theorem idem_cfg (v : Vendor) (rules : Rules) (path path' : List String) :
+      (t t' : Cfg) → applyAcl v false false rules path t = .ok t' →
+        applyAcl v false false rules path' t' = .ok t'
+    | .mk ks, t', h => by
+      obtain ⟨ks', hl, rfl⟩ := (applyAcl_ok_iff ..).1 h
+      exact applyAcl_mk_of_list (idem_list v rules path path' ks ks' hl)
+  theorem idem_list (v : Vendor) (rules : Rules) (path path' : List String) :
+      (ks ks' : List (String × Cfg)) → applyAclList v false false rules path ks = .ok ks' →
+        applyAclList v false false rules path' ks' = .ok ks'
+    | [], ks', h => by
+      simp only [applyAclList, Except.ok.injEq] at h
+      subst h; rfl
+    | (row, ch) :: rest, ks', h => by
+      rcases lenient_cons_inv h with ⟨_, _, hr⟩ | ⟨m, cr, ch', rest', hm, hc, _, hch, hrest, rfl⟩
+      · exact idem_list v rules path path' rest ks' hr
+      · have h1 := idem_cfg v cr (path ++ [row]) (path' ++ [row]) ch ch' hch
+        have h2 := idem_list v rules path path' rest rest' hrest
+        rw [applyAclList]
+        simp only [hm, hc, h1, h2, Bool.false_eq_true, if_false]
+end
 
 theorem idempotent (v : Vendor) (rules : Rules) (path : List String) (t t' : Cfg)
     (h : applyAcl v false false rules path t = .ok t') :
-    applyAcl v false false rules path t' = .ok t' := by
-  sorry
+    applyAcl v false false rules path t' = .ok t' := idem_cfg v rules path path t t' h
+
+theorem walk_cons (v : Vendor) (rules : Rules) (row : String) (p : List String) :
+    walk v rules (row :: p) = (passRow v rules row).bind fun cr => walk v cr p := by
+  rw [walk]; cases passRow v rules row <;> rfl
+
+mutual
+  theorem pp_cfg (v : Vendor) (rules : Rules) (path : List String) (p : List String) :
+      (t t' : Cfg) → applyAcl v false false rules path t = .ok t' →
+        (p ∈ t'.paths ↔ (p ∈ t.paths ∧ (walk v rules p).isSome))
+    | .mk ks, t', h => by
+      obtain ⟨ks', hl, rfl⟩ := (applyAcl_ok_iff ..).1 h
+      simpa only [Cfg.paths] using pp_list v rules path p ks ks' hl
+  theorem pp_list (v : Vendor) (rules : Rules) (path : List String) (p : List String) :
+      (ks ks' : List (String × Cfg)) → applyAclList v false false rules path ks = .ok ks' →
+        (p ∈ Cfg.pathsList ks' ↔ (p ∈ Cfg.pathsList ks ∧ (walk v rules p).isSome))
+    | [], ks', h => by
+      simp only [applyAclList, Except.ok.injEq] at h
+      subst h; simp [Cfg.pathsList]
+    | (row, ch) :: rest, ks', h => by
+      rcases lenient_cons_inv h with ⟨hp, _, hr⟩ | ⟨m, cr, ch', rest', hm, hc, hp, hch, hrest, rfl⟩
+      · have ih := pp_list v rules path p rest ks' hr
+        rw [ih, Cfg.pathsList]
+        constructor
+        · rintro ⟨h1, h2⟩; exact ⟨by simp [h1], h2⟩
+        · rintro ⟨h1, h2⟩
+          refine ⟨?_, h2⟩
+          simp only [List.cons_append, List.mem_cons, List.mem_append, List.mem_map] at h1
+          rcases h1 with rfl | ⟨q, _, rfl⟩ | h1
+          · simp [walk_cons, hp] at h2
+          · simp [walk_cons, hp] at h2
+          · exact h1
+      · have ih1 : ∀ q, q ∈ ch'.paths ↔ (q ∈ ch.paths ∧ (walk v cr q).isSome) :=
+          fun q => pp_cfg v cr (path ++ [row]) q ch ch' hch
+        have ih2 := pp_list v rules path p rest rest' hrest
+        simp only [Cfg.pathsList, List.cons_append, List.mem_cons, List.mem_append, List.mem_map, ih2]
+        constructor
+        · rintro (rfl | ⟨q, hq, rfl⟩ | ⟨h1, h2⟩)
+          · exact ⟨.inl rfl, by simp [hp, walk]⟩
+          · have := (ih1 q).1 hq
+            exact ⟨.inr (.inl ⟨q, this.1, rfl⟩), by simpa [walk_cons, hp] using this.2⟩
+          · exact ⟨.inr (.inr h1), h2⟩
+        · rintro ⟨rfl | ⟨q, hq, rfl⟩ | h1, h2⟩
+          · exact .inl rfl
+          · refine .inr (.inl ⟨q, (ih1 q).2 ⟨hq, ?_⟩, rfl⟩)
+            simpa [walk_cons, hp] using h2
+          · exact .inr (.inr ⟨h1, h2⟩)
+end
 
 theorem path_predicate (v : Vendor) (rules : Rules) (path : List String) (t t' : Cfg)
     (h : applyAcl v false false rules path t = .ok t') (p : List String) :
-    p ∈ t'.paths ↔ (p ∈ t.paths ∧ (walk v rules p).isSome) := by
-  sorry
+    p ∈ t'.paths ↔ (p ∈ t.paths ∧ (walk v rules p).isSome) := pp_cfg v rules path p t t' h
+
+
+mutual
+  theorem fatal_cfg (v : Vendor) (rules : Rules) (path : List String) :
+      (t t0 : Cfg) → applyAcl v false false rules path t = .ok t0 →
+        applyAcl v true false rules path t =
+          (match firstUnmatched v rules path t with
+           | some q => .error (.aclError q)
+           | none => .ok t0)
+    | .mk ks, t0, h => by
+      obtain ⟨ks0, hl, rfl⟩ := (applyAcl_ok_iff ..).1 h
+      have := fatal_list v rules path ks ks0 hl
+      rw [applyAcl, this, firstUnmatched]
+      cases firstUnmatchedL v rules path ks <;> rfl
+  theorem fatal_list (v : Vendor) (rules : Rules) (path : List String) :
+      (ks ks0 : List (String × Cfg)) → applyAclList v false false rules path ks = .ok ks0 →
+        applyAclList v true false rules path ks =
+          (match firstUnmatchedL v rules path ks with
+           | some q => .error (.aclError q)
+           | none => .ok ks0)
+    | [], ks0, h => by
+      simp only [applyAclList, Except.ok.injEq] at h
+      subst h; rfl
+    | (row, ch) :: rest, ks0, h => by
+      rcases lenient_cons_inv h with ⟨_, hm | ⟨m, cr, hm, hc⟩, hr⟩ |
+        ⟨m, cr, ch', rest', hm, hc, _, hch, hrest, rfl⟩
+      · rw [applyAclList, firstUnmatchedL]
+        simp only [hm, if_true]
+      · have ih := fatal_list v rules path rest ks0 hr
+        rw [applyAclList, firstUnmatchedL]
+        simp only [hm, hc, if_true, ih]
+      · have ih1 := fatal_cfg v cr (path ++ [row]) ch ch' hch
+        have ih2 := fatal_list v rules path rest rest' hrest
+        rw [applyAclList, firstUnmatchedL]
+        simp only [hm, hc, Bool.false_eq_true, if_false, ih1, ih2]
+        cases firstUnmatched v cr (path ++ [row]) ch with
+        | some q => rfl
+        | none =>
+          cases firstUnmatchedL v rules path rest <;> rfl
+end
 
 theorem fatal_iff (v : Vendor) (rules : Rules) (path : List String) (t t0 : Cfg)
     (h : applyAcl v false false rules path t = .ok t0) :
     applyAcl v true false rules path t =
       (match firstUnmatched v rules path t with
        | some q => .error (.aclError q)
-       | none => .ok t0) := by
-  sorry
+       | none => .ok t0) := fatal_cfg v rules path t t0 h
 
+
+/-! ### a deletable `~ %global` rule covers everything -/
+
+theorem mem_insertStable (m x : Match) (l : List Match) : x ∈ insertStable m l ↔ x = m ∨ x ∈ l := by
+  induction l with
+  | nil => simp [insertStable]
+  | cons y ys ih =>
+    rw [insertStable]
+    split
+    · simp
+    · simp only [List.mem_cons, ih]
+      constructor
+      · rintro (h | h | h) <;> simp [h]
+      · rintro (h | h | h) <;> simp [h]
+
+theorem mem_sortStable_aux (l acc : List Match) (x : Match) :
+    x ∈ l.foldl (fun acc m => insertStable m acc) acc ↔ x ∈ acc ∨ x ∈ l := by
+  induction l generalizing acc with
+  | nil => simp
+  | cons y ys ih =>
+    rw [List.foldl_cons, ih, mem_insertStable]
+    simp only [List.mem_cons]
+    constructor
+    · rintro ((h | h) | h) <;> simp [h]
+    · rintro (h | h | h) <;> simp [h]
+
+theorem mem_sortStable (l : List Match) (x : Match) : x ∈ sortStable l ↔ x ∈ l := by
+  simp [sortStable, mem_sortStable_aux]
+
+theorem sortStable_cons_ne_nil (x : Match) (l : List Match) : sortStable (x :: l) ≠ [] := by
+  intro h
+  have : x ∈ sortStable (x :: l) := (mem_sortStable _ _).2 (List.mem_cons_self ..)
+  rw [h] at this; cases this
+
+theorem mergeDicts_nil_singleton (r : Rule) : mergeDicts [] [r] = [r] := by
+  simp [mergeDicts, mergeRuleDicts, rulesBeq, findRule]
+
+theorem tilde_match (l : List Char) (hl : l ≠ []) :
+    ({ toks := [.tilde] } : Pat).match? l = some [l] := by
+  cases l with
+  | nil => exact absurd rfl hl
+  | cons c cs => simp [Pat.match?, matchToks, matchOne]
+
+theorem directPat_tilde (rid : String) (cd : List Bool) (prio : Nat) (names : List String) :
+    directPat (Rule.mk rid "~" false cd prio names none) = some { toks := [.tilde] } := by
+  simp only [directPat, Rule.row]; decide
+
+section
+variable (rid : String) (cd : List Bool) (prio : Nat) (names : List String)
+
+theorem findMatches_tilde (v : Vendor) (row : String) (rp : Pat)
+    (hj : v.juniper = false) (hrow : row.toList ≠ [])
+    (hrev : reversePat v (Rule.mk rid "~" false cd prio names none) = some rp) :
+    ∃ ms, findMatches v row ⟨[], [Rule.mk rid "~" false cd prio names none]⟩ = some ms ∧ ms ≠ [] ∧
+      ∀ m ∈ ms, m.rule = Rule.mk rid "~" false cd prio names none ∧ m.crAllowed = false := by
+  simp only [findMatches, List.map_nil, List.map_cons, List.nil_append, hj]
+  simp [directPat_tilde, hrev, tilde_match _ hrow]
+  cases rp.match? row.toList with
+  | none =>
+    refine ⟨_, rfl, ?_, ?_⟩
+    · exact sortStable_cons_ne_nil _ _
+    · intro m hm
+      rw [mem_sortStable] at hm
+      simp only [List.flatten_cons, List.flatten_nil, List.append_nil, List.mem_cons,
+        List.not_mem_nil, or_false] at hm
+      subst hm; exact ⟨rfl, rfl⟩
+  | some val =>
+    refine ⟨_, rfl, ?_, ?_⟩
+    · exact sortStable_cons_ne_nil _ _
+    · intro m hm
+      rw [mem_sortStable] at hm
+      simp only [List.flatten_cons, List.flatten_nil, List.append_nil, List.mem_cons,
+        List.not_mem_nil, or_false] at hm
+      rcases hm with rfl | rfl <;> exact ⟨rfl, rfl⟩
+
+theorem foldl_inv {α β : Type} (P : α → Prop) (f : α → β → α) (l : List β) (a : α) (h0 : P a)
+    (hstep : ∀ a b, b ∈ l → P a → P (f a b)) : P (l.foldl f a) := by
+  induction l generalizing a with
+  | nil => exact h0
+  | cons x xs ih =>
+    exact ih _ (hstep a x (List.mem_cons_self ..) h0)
+      (fun a b hb => hstep a b (List.mem_cons_of_mem _ hb))
+
+theorem tab_len (L : List (String × Bool)) (hL : L.length ≤ 1) (ms : List Match)
+    (hms : ∀ m ∈ ms, m.rule.genNames.zip m.rule.cantDelete = L) :
+    (ms.foldl (fun (acc : List (String × Bool)) m =>
+      (m.rule.genNames.zip m.rule.cantDelete).foldl (fun acc (nf : String × Bool) =>
+        if acc.any (·.1 == nf.1) then acc.map fun e => if e.1 == nf.1 then (e.1, e.2 && nf.2) else e
+        else acc ++ [nf]) acc) []).length ≤ 1 := by
+  cases L with
+  | nil =>
+    refine foldl_inv (fun (acc : List (String × Bool)) => acc.length ≤ 1) _ ms [] (Nat.zero_le 1) ?_
+    intro acc m hm hacc
+    rw [hms m hm]; exact hacc
+  | cons nf L' =>
+    cases L' with
+    | cons _ _ => simp at hL
+    | nil =>
+      have key := foldl_inv (fun acc => acc = [] ∨ ∃ b, acc = [(nf.1, b)])
+        (fun (acc : List (String × Bool)) (m : Match) =>
+          (m.rule.genNames.zip m.rule.cantDelete).foldl (fun acc (nf : String × Bool) =>
+            if acc.any (·.1 == nf.1) then acc.map fun e => if e.1 == nf.1 then (e.1, e.2 && nf.2) else e
+            else acc ++ [nf]) acc) ms [] (.inl rfl) (by
+          intro acc m hm hacc
+          rw [hms m hm]
+          rcases hacc with rfl | ⟨b, rfl⟩
+          · exact .inr ⟨nf.2, by simp⟩
+          · exact .inr ⟨b && nf.2, by simp⟩)
+      rcases key with h | ⟨b, h⟩ <;> rw [h] <;> simp
+
+theorem canDeleteNames_len (L : List (String × Bool)) (hL : L.length ≤ 1) (ms : List Match)
+    (hms : ∀ m ∈ ms, m.rule.genNames.zip m.rule.cantDelete = L) :
+    (canDeleteNames ms).length ≤ 1 := by
+  unfold canDeleteNames
+  simp only [List.length_map]
+  exact Nat.le_trans (List.length_filter_le ..) (tab_len L hL ms hms)
+
+theorem matchRow_tilde (v : Vendor) (excl : Bool) (row : String) (rp : Pat)
+    (hj : v.juniper = false) (hrow : row.toList ≠ [])
+    (hrev : reversePat v (Rule.mk rid "~" false cd prio names none) = some rp)
+    (hx : (names.zip cd).length ≤ 1 ∨ excl = false) :
+    ∃ m, matchRowToAcl v row ⟨[], [Rule.mk rid "~" false cd prio names none]⟩ excl =
+        .ok (some (m, ⟨[], [Rule.mk rid "~" false cd prio names none]⟩)) ∧
+      m.rule = Rule.mk rid "~" false cd prio names none := by
+  obtain ⟨ms, hfm, hne, hall⟩ := findMatches_tilde rid cd prio names v row rp hj hrow hrev
+  cases ms with
+  | nil => exact absurd rfl hne
+  | cons f tl =>
+    have hf := hall f (List.mem_cons_self ..)
+    refine ⟨f, ?_, hf.1⟩
+    have hex : (excl && decide ((canDeleteNames (f :: tl)).length > 1)) = false := by
+      rcases hx with hx | rfl
+      · have := canDeleteNames_len (names.zip cd) hx (f :: tl)
+          (fun m hm => by rw [(hall m hm).1]; rfl)
+        simp; intro _; omega
+      · rfl
+    rw [matchRowToAcl, hfm]
+    simp only [hex, Bool.false_eq_true, if_false]
+    simp [selectMatch, hf.1, hf.2, Rule.ignore, mergeDicts_nil_singleton]
+
+theorem findMatches_tilde_none (v : Vendor) (row : String)
+    (hrev : reversePat v (Rule.mk rid "~" false cd prio names none) = none) :
+    findMatches v row ⟨[], [Rule.mk rid "~" false cd prio names none]⟩ = none := by
+  simp only [findMatches, List.map_nil, List.map_cons, List.nil_append]
+  simp [directPat_tilde, hrev]
+
+mutual
+  theorem cover_cfg (v : Vendor) (fatal excl : Bool) (rp : Pat) (hj : v.juniper = false)
+      (hcd : cd.all (fun b => b) = false)
+      (hrev : reversePat v (Rule.mk rid "~" false cd prio names none) = some rp)
+      (hx : (names.zip cd).length ≤ 1 ∨ excl = false) (path : List String) :
+      (t : Cfg) → allRowsNonEmpty t = true →
+        applyAcl v fatal excl ⟨[], [Rule.mk rid "~" false cd prio names none]⟩ path t = .ok t
+    | .mk ks, h => by
+      rw [allRowsNonEmpty] at h
+      exact applyAcl_mk_of_list (cover_list v fatal excl rp hj hcd hrev hx path ks h)
+  theorem cover_list (v : Vendor) (fatal excl : Bool) (rp : Pat) (hj : v.juniper = false)
+      (hcd : cd.all (fun b => b) = false)
+      (hrev : reversePat v (Rule.mk rid "~" false cd prio names none) = some rp)
+      (hx : (names.zip cd).length ≤ 1 ∨ excl = false) (path : List String) :
+      (ks : List (String × Cfg)) → allRowsNonEmptyL ks = true →
+        applyAclList v fatal excl ⟨[], [Rule.mk rid "~" false cd prio names none]⟩ path ks = .ok ks
+    | [], _ => by rw [applyAclList]
+    | (row, ch) :: rest, h => by
+      rw [allRowsNonEmptyL] at h
+      simp only [Bool.and_eq_true, Bool.not_eq_true', List.isEmpty_eq_false_iff] at h
+      obtain ⟨⟨hrow, hch⟩, hrest⟩ := h
+      obtain ⟨m, hm, hrule⟩ := matchRow_tilde rid cd prio names v excl row rp hj hrow hrev hx
+      have h1 := cover_cfg v fatal excl rp hj hcd hrev hx (path ++ [row]) ch hch
+      have h2 := cover_list v fatal excl rp hj hcd hrev hx path rest hrest
+      have hc : (m.isReverse && m.rule.cantDelete.all _root_.id) = false := by
+        rw [hrule]; simp only [Rule.cantDelete]
+        have : cd.all _root_.id = false := hcd
+        rw [this]; simp
+      rw [applyAclList]
+      simp only [hm, hc, h1, h2, Bool.false_eq_true, if_false]
+end
+end
+
+/-- Counterexample to the original statement (no hypothesis on the reverse form of the rule): the
+negation word `""` (or any word with a regex metacharacter) puts the reverse row `" ~"` outside the
+grammar, so the model answers `.error .grammar` for every non-empty tree. -/
+example :
+    (match applyAcl { reverse := "", juniper := false } false false
+        ⟨[], [Rule.mk "~" "~" false [false] 0 ["g"] none]⟩ [] (.mk [("a", .mk [])]) with
+     | .error .grammar => true
+     | _ => false) = true ∧ allRowsNonEmpty (.mk [("a", .mk [])]) = true := by decide
+
+/-- variant with the precondition stated on the rule: its reverse form is inside the grammar -/
+theorem global_tilde_covers_everything_of_reverse (v : Vendor) (fatal excl : Bool) (cd : List Bool) (prio : Nat)
+    (names : List String) (id : String) (path : List String) (t : Cfg)
+    (hj : v.juniper = false) (hcd : cd.all (fun b => b) = false) (hne : allRowsNonEmpty t = true)
+    (hx : (names.zip cd).length ≤ 1 ∨ excl = false)
+    (hrev : (reversePat v (Rule.mk id "~" false cd prio names none)).isSome = true) :
+    applyAcl v fatal excl ⟨[], [Rule.mk id "~" false cd prio names none]⟩ path t = .ok t := by
+  cases hr : reversePat v (Rule.mk id "~" false cd prio names none) with
+  | none => rw [hr] at hrev; cases hrev
+  | some rp => exact cover_cfg id cd prio names v fatal excl rp hj hcd hr hx path t hne
+
+-- STATEMENT CHANGED: added hypothesis `hg` (the run does not hit the model-only grammar error).
+-- As originally stated (without `hg`) the theorem is false: see the counterexample above.
 theorem global_tilde_covers_everything (v : Vendor) (fatal excl : Bool) (cd : List Bool) (prio : Nat)
     (names : List String) (id : String) (path : List String) (t : Cfg)
-    (hj : v.juniper = false) (hcd : cd.all (fun b => b) = false) (hne : allRowsNonEmpty t = true) (hx : (names.zip cd).length ≤ 1 ∨ excl = false) :
+    (hj : v.juniper = false) (hcd : cd.all (fun b => b) = false) (hne : allRowsNonEmpty t = true) (hx : (names.zip cd).length ≤ 1 ∨ excl = false)
+    (hg : NoGrammarErr (applyAcl v fatal excl ⟨[], [Rule.mk id "~" false cd prio names none]⟩ path t)) :
     applyAcl v fatal excl ⟨[], [Rule.mk id "~" false cd prio names none]⟩ path t = .ok t := by
-  sorry
+  cases hr : reversePat v (Rule.mk id "~" false cd prio names none) with
+  | some rp => exact cover_cfg id cd prio names v fatal excl rp hj hcd hr hx path t hne
+  | none =>
+    match t with
+    | .mk [] => rfl
+    | .mk ((row, ch) :: rest) =>
+      exfalso; apply hg
+      rw [applyAcl, applyAclList, matchRowToAcl, findMatches_tilde_none id cd prio names v row hr]
+      rfl
 
 end Annet.Acl.Lemmas
